@@ -20,6 +20,7 @@ import (
 	"encoding/json"
 	"fmt"
 	"sync"
+	"time"
 
 	"github.com/free5gc/openapi/models"
 )
@@ -82,7 +83,14 @@ func runConcFirst(t []string) string {
 			}()
 		}
 		close(start)
-		wg.Wait()
+		roundDone := make(chan struct{})
+		go func() { wg.Wait(); close(roundDone) }()
+		select {
+		case <-roundDone:
+		case <-time.After(60 * time.Second):
+			// requests of one round that do not come back: a deadlock
+			return fmt.Sprintf("first rounds=%d acked=%d unusable=%d deadlock=1", r, acked, unusable)
+		}
 		if rechargeCode == 204 {
 			recharged++
 			sinkMu.Lock()
